@@ -1598,7 +1598,13 @@ class LinearOperator(object):
         else:
             raise RuntimeError("Invalid arguments {} to expand.".format(sizes))
 
-        res = self._expand_batch(batch_shape=shape[:-2])
+        # -1 keeps the size of an existing dimension (the _expand_batch methods expect actual sizes)
+        num_new_dims = len(shape) - self.dim()
+        batch_shape = torch.Size(
+            self.shape[i - num_new_dims] if (size == -1 and i >= num_new_dims) else size
+            for i, size in enumerate(shape[:-2])
+        )
+        res = self._expand_batch(batch_shape=batch_shape)
         return res
 
     def float(
